@@ -1,17 +1,31 @@
 """C04 - UBI, UB, U, B, metric tensors, cell parameters and Rodrigues vector are mutually consistent.
 
-spec: specs/Lattice.tla, three parts.
+spec: specs/Lattice.tla, five parts.
  * PART "alg" (mode A): exact lattices (upper-triangular rational B, or any rational direct basis) times exact
    rotations; TLC checks the algebraic laws and emits ubi, UB, mt, rmt, U, B, Rod as exact fractions.  Every
    emitted case is pushed through grain.grain, indexing.ubito*, the tensor_map kernels + TensorMap,
    point_by_point.ubi_to_unitcell / ubi_and_ucell_to_u, unitcell.unitcell(cell) and the round trip
    cell + rotation -> UBI -> cell + rotation.  Every reported B must be THE Busing-Levy B (upper triangular,
    positive diagonal, B^T B = rmt), every U a proper rotation with U.B = UB.
- * PART "cache" (mode B): every behaviour of set_ubi / property reads is stepped through a real grain; each read
-   must agree with a freshly constructed grain of the current ubi (and with the exact expectation), the returned
-   array is overwritten by the caller after every read.
+   Scale family (harness only, the algebra is covariant under ubi -> s ubi): every emitted case is replayed also
+   with s = 1/4 and s = 100 (cells of about 1 A and 500-1000 A); the emitted fractions are scaled in python
+   integers and re-checked there; quantities that scale are judged with a purely relative tolerance.
+ * PART "cache" (mode B): every behaviour of set_ubi / property reads / the caller editing the array it handed
+   to grain() or set_ubi is stepped through a real grain; each read must agree with a freshly constructed grain
+   of the matrix as it was at the call (and with the exact expectation), the returned array is overwritten by the
+   caller after every read.  The pair of matrices is instantiated in several classes (harness only, the model is
+   covariant in the pair): everything differs / same lattice rotated / same U other cell / one entry + 1e-7 /
+   strains 5e-6, 1e-7, 3e-8 hydrostatic and shear.
+ * PART "cache", OBJ "tmap" (mode B): the same state machine for TensorMap (constructor or from_ubis, new UBI map
+   by setter / item / add_map, reads of UB mt unitcell B U in any order and any subset), on two differently
+   masked maps; every read bit-identical to the kernel chain of the current map.
  * PART "map": every pair of NaN masks of a 2x3 map through the vectorised kernels and TensorMap: NaN exactly on
    the mask, all other voxels bit-identical to the unmasked run.
+ * PART "call": every way of calling a vectorised kernel: result allocated / passed positionally / as out=, the
+   buffer holding 7.25 or NaN before, layouts flat, grid, every second voxel of a stack (result into every
+   second slot), the flipped axis-swapped view from_ubis makes, bare core dimensions, maps without voxels, x NaN
+   masks: the result is bit-identical to a reference that was computed into dirty buffers and judged against the
+   exact values, NaN exactly on the mask, the rest of the buffer untouched.
 """
 import os, sys, re, json, math, time, threading, warnings
 from fractions import Fraction as Fr
@@ -104,6 +118,45 @@ def expected(c):
     return E
 
 
+def scaled_case(c, sn, sd):
+    """the emitted case with ubi multiplied by sn / sd, in python integers (the fractions are not reduced: fmat
+    divides exactly).  mt x s^2, rmt / s^2, UB and B / s; U and Rod unchanged"""
+    sn, sd = int(sn), int(sd)
+
+    def mul(m, f):
+        return [[int(x) * f for x in row] for row in m]
+    d = dict(c)
+    d["scale"] = [sn, sd]
+    d["ubin"], d["ubid"] = mul(c["ubin"], sn), int(c["ubid"]) * sd
+    d["An"], d["Ad"] = mul(c["An"], sn), int(c["Ad"]) * sd
+    d["UBn"], d["UBd"] = mul(c["UBn"], sd), int(c["UBd"]) * sn
+    d["Bn"], d["Bd"] = mul(c["Bn"], sd), int(c["Bd"]) * sn
+    d["mtn"], d["mtd"] = mul(c["mtn"], sn * sn), int(c["mtd"]) * sd * sd
+    d["rmtn"], d["rmtd"] = mul(c["rmtn"], sd * sd), int(c["rmtd"]) * sn * sn
+    return d
+
+
+SCALES = [(1, 4), (100, 1)]
+
+
+def numpy_ref(ubi):
+    """what the nine grain fields are for a float matrix, from numpy alone (Cholesky characterisation of B);
+    used where no exact expectation exists (matrices 1e-7 away from an exact one)"""
+    ubi = np.asarray(ubi, float)
+    R = {"UB": np.linalg.inv(ubi), "mt": ubi @ ubi.T}
+    R["rmt"] = np.linalg.inv(R["mt"])
+    G = R["mt"]
+    L = np.sqrt(np.diag(G))
+    R["unitcell"] = np.array(list(L) + [np.degrees(np.arccos(G[1, 2] / L[1] / L[2])),
+                                        np.degrees(np.arccos(G[0, 2] / L[0] / L[2])),
+                                        np.degrees(np.arccos(G[0, 1] / L[0] / L[1]))])
+    R["B"] = np.linalg.cholesky(R["rmt"]).T
+    U = R["U"] = (R["B"] @ ubi).T
+    R["Rod"] = np.array([U[1, 2] - U[2, 1], U[2, 0] - U[0, 2], U[0, 1] - U[1, 0]]) / (1.0 + np.trace(U))
+    R["ub"], R["u"] = R["UB"], R["U"]
+    return R
+
+
 def lattice_class(c):
     m = c["mtn"]
     off = [m[1][2], m[0][2], m[0][1]]
@@ -126,13 +179,30 @@ def lattice_class(c):
 # ------------------------------------------------------------------------------------------------------
 # comparison
 
-def close(got, exp, rel=REL):
+ABSFLOOR = 1e-12       # only for dimensionless quantities (U, Rod, products that equal the identity)
+DIMLESS = ("U", "u", "Rod")
+
+
+def close(got, exp, rel=REL, floor=ABSFLOOR):
+    """|got - exp| <= rel * max|exp| + floor; floor = 0 for everything that scales with the cell (ubi, UB, mt, rmt,
+    B, lengths), so that a 1000 A cell is judged as sharply as a 4 A one"""
     got = np.asarray(got, float)
     exp = np.asarray(exp, float)
     if got.shape != exp.shape or not np.all(np.isfinite(got)):
         return False
     scale = float(np.abs(exp).max()) if exp.size else 1.0
-    return bool(np.all(np.abs(got - exp) <= rel * scale + 1e-12))
+    return bool(np.all(np.abs(got - exp) <= rel * scale + floor))
+
+
+def close_field(name, got, exp, rel=REL):
+    """comparison of two values of one grain field (cell: lengths relative, angles absolute in degrees)"""
+    if name in ("unitcell", "cell"):
+        got = np.asarray(got, float)
+        exp = np.asarray(exp, float)
+        if got.shape != (6,) or exp.shape != (6,) or not np.all(np.isfinite(got)):
+            return False
+        return close(got[:3], exp[:3], rel, 0.0) and bool(np.abs(got[3:] - exp[3:]).max() <= ANGTOL * max(1.0, rel / REL))
+    return close(got, exp, rel, ABSFLOOR if name in DIMLESS else 0.0)
 
 
 def judge_field(field, got, E):
@@ -145,7 +215,7 @@ def judge_field(field, got, E):
     if field == "cell":
         if got.shape != (6,) or not np.all(np.isfinite(got)):
             return [("value", "cell %s" % (got,))]
-        if not close(got[:3], E["cell"][:3]):
+        if not close(got[:3], E["cell"][:3], floor=0.0):
             out.append(("value", "cell lengths %s, exact %s" % (got[:3].tolist(), E["cell"][:3].tolist())))
         if np.abs(got[3:] - E["cell"][3:]).max() > ANGTOL:
             out.append(("value", "cell angles %s, exact %s" % (got[3:].tolist(), E["cell"][3:].tolist())))
@@ -160,15 +230,15 @@ def judge_field(field, got, E):
         return [("value", "%s = %s" % (field, got.tolist()))]
     if field == "B":
         sc = float(np.abs(E["B"]).max())
-        if max(abs(got[1, 0]), abs(got[2, 0]), abs(got[2, 1])) > 1e-12 + REL * sc or min(np.diag(got)) <= 0:
+        if max(abs(got[1, 0]), abs(got[2, 0]), abs(got[2, 1])) > REL * sc or min(np.diag(got)) <= 0:
             out.append(("B upper triangular with positive diagonal", "B = %s" % got.tolist()))
-        if not close(got.T @ got, E["rmt"]):
+        if not close(got.T @ got, E["rmt"], floor=0.0):
             out.append(("B^T B = rmt", "B = %s ; B^T B = %s ; exact rmt = %s" % (
                 got.tolist(), (got.T @ got).tolist(), E["rmt"].tolist())))
     if field == "U":
         if not close(got @ got.T, np.eye(3)) or abs(np.linalg.det(got) - 1.0) > 1e-9:
             out.append(("U proper rotation", "U = %s" % got.tolist()))
-    if not out and not close(got, E[field]):
+    if not out and not close(got, E[field], floor=(ABSFLOOR if field == "U" else 0.0)):
         out.append(("value", "%s = %s, exact %s" % (field, got.tolist(), E[field].tolist())))
     return out
 
@@ -310,6 +380,8 @@ def judge_alg(c, rt, vec=None, idx=None, perturb=None):
         E["Rod"] = -E["Rod"]
     elif perturb == "UB":
         E["UB"] = E["UB"].T.copy()
+    elif perturb == "rmt":
+        E["rmt"] = E["rmt"] * (1.0 + 5e-9)         # relative: must be rejected at every scale of the cell
     ubi = E["ubi"]
     items = scalar_routes(rt, ubi, E)
     if vec is None and rt.tm is not None:
@@ -339,39 +411,63 @@ class BenchError(Exception):
 
 
 class CacheBench(object):
-    """the two matrices of the cache model and what a fresh grain reports for them"""
+    """two matrices of the cache model (a class of pairs: `same` = the fields in which the two must agree) and what
+    is expected of every read: the exact expectation of the emitted case (pairs of emitted cases) or the numpy
+    reference (matrices next to an emitted case), and a fresh grain of the same matrix"""
 
-    def __init__(self, rt, c1, c2):
+    ALLDIFF = ()
+    ROTATED = ("mt", "rmt", "unitcell", "B")       # same lattice, other orientation
+    SAMEU = ("U", "Rod")                           # same orientation, other cell
+
+    def __init__(self, rt, c1, c2, name="all fields differ", same=()):
         self.rt = rt
+        self.name = name
+        self.same = tuple(same)
         self.cases = {1: c1, 2: c2}
+        self.spec = {"cls": name, "same": list(same), "near": None}
         self.E = {1: expected(c1), 2: expected(c2)}
         self.ubi = {1: self.E[1]["ubi"], 2: self.E[2]["ubi"]}
+        self.R = {1: numpy_ref(self.ubi[1]), 2: numpy_ref(self.ubi[2])}
+        self.finish_init()
+
+    def finish_init(self):
+        rt = self.rt
         self.fresh = {}
         for m in (1, 2):
             for name in FIELDSEQ + ["ub", "u"]:
                 v = call(lambda: np.array(getattr(rt.grain.grain(self.ubi[m].copy()), name), float))
                 if isinstance(v, Exception):
-                    raise BenchError("grain(ubi).%s raised %r" % (name, v), c1 if m == 1 else c2)
+                    raise BenchError("grain(ubi).%s raised %r" % (name, v), self.cases[m])
                 self.fresh[m, name] = v
+        # the class is what it claims to be - decided on the reference values, not on the code under test
         for name in FIELDSEQ:
-            if close(self.fresh[1, name], self.fresh[2, name], 1e-3):
-                raise common.MachineryError("cache bench: the two matrices do not differ in %s" % name)
+            eq = close_field(name, self.R[1][name], self.R[2][name])
+            if name in self.same and not eq:
+                raise common.MachineryError("cache bench %s: the two matrices differ in %s" % (self.name, name))
+            if name not in self.same and eq:
+                raise common.MachineryError("cache bench %s: the two matrices do not differ in %s" % (self.name, name))
 
     def replay(self, ops, occ_model=None, perturb=None, fresh_each=False):
         """step one behaviour through a real grain; returns (problems, drift)"""
         rt = self.rt
-        g = rt.grain.grain(self.ubi[1].copy())
+        held = self.ubi[1].copy()           # the caller keeps the array it hands in
+        g = rt.grain.grain(held)
         cur = 1
         probs = []
         drift = None
         for k, op in enumerate(ops):
             if op[0] == "set":
                 cur = int(op[1])
+                held = self.ubi[cur].copy()
                 try:
-                    g.set_ubi(self.ubi[cur].copy())
+                    g.set_ubi(held)
                 except Exception as ex:        # noqa
                     probs.append("step %d set_ubi raised %r" % (k + 1, ex))
                     break
+                continue
+            if op[0] == "edit":
+                # ... and overwrites it afterwards with the other matrix: the grain describes the matrix it was given
+                held[...] = self.ubi[3 - cur]
                 continue
             name = op[1]
             try:
@@ -383,13 +479,16 @@ class CacheBench(object):
             if fresh_each:
                 want = np.array(getattr(rt.grain.grain(self.ubi[cur].copy()), name), float)
             fld = {"unitcell": "cell", "ub": "UB", "u": "U"}.get(name, name)
-            if not close(val, want):
+            if not close_field(name, val, want):
                 probs.append("step %d: grain.%s = %s differs from a fresh grain of the current ubi: %s" % (
                     k + 1, name, np.asarray(val).tolist(), want.tolist()))
             elif perturb is None and self.E[cur] is not None:
                 bad = judge_field(fld, val, self.E[cur])
                 if bad:
                     probs.append("step %d: grain.%s: %s" % (k + 1, name, bad[0][1]))
+            elif perturb is None and not close_field(name, val, self.R[cur][name]):
+                probs.append("step %d: grain.%s = %s, numpy reference of the current ubi %s" % (
+                    k + 1, name, np.asarray(val).tolist(), self.R[cur][name].tolist()))
             # the caller scribbles on what it was given; later reads must not be affected
             try:
                 val[...] = 777.25
@@ -405,29 +504,53 @@ class CacheBench(object):
         return probs, drift
 
 
-class NearBench(CacheBench):
-    """the same cache behaviours with a second matrix that is the first one under a 5e-6 strain ("small arbitrary
-    strains"): a cache that survives a tiny update returns values of the old lattice, 5e-6 away from the fresh ones"""
+NEARS = [("hydrostatic", 5e-6), ("hydrostatic", 1e-7), ("hydrostatic", 3e-8), ("shear", 1e-7), ("entry", 1e-7)]
 
-    def __init__(self, rt, c1, strain=5e-6):
+
+def near_matrix(u1, kind, size):
+    u1 = np.array(u1, float)
+    if kind == "hydrostatic":
+        # every entry changes by the same tiny relative amount (an element-wise "is it the same matrix" test with a
+        # relative tolerance cannot tell them apart); exact zeros stay zero
+        return u1 @ (np.eye(3) * (1.0 + size))
+    if kind == "shear":
+        S = np.array([[0.0, 1.0, -0.5], [1.0, 0.0, 0.25], [-0.5, 0.25, 0.0]]) + np.diag([1.0, -0.5, -0.5])
+        return u1 @ (np.eye(3) + size * S)
+    if kind == "entry":
+        u2 = u1.copy()
+        u2[0, 1] += size            # one entry, absolute
+        return u2
+    raise common.MachineryError("near_matrix: %r" % kind)
+
+
+class NearBench(CacheBench):
+    """the same cache behaviours with a second matrix that is the first one under a tiny change ("small arbitrary
+    strains"): a cache that survives a tiny update returns values of the old lattice, `size` away from the right ones"""
+
+    def __init__(self, rt, c1, kind="hydrostatic", size=5e-6):
         self.rt = rt
+        self.name = "%s %g" % (kind, size)
+        self.same = ()
         self.cases = {1: c1, 2: c1}
+        self.spec = {"cls": self.name, "same": [], "near": [kind, size]}
         self.E = {1: expected(c1), 2: None}
         u1 = np.array(self.E[1]["ubi"], float)
-        # hydrostatic part dominant: every entry changes by the same tiny relative amount (an element-wise
-        # "is it the same matrix" test with a relative tolerance cannot tell them apart), (exact zeros stay zero)
-        S = np.eye(3)
-        self.ubi = {1: u1, 2: u1 @ (np.eye(3) + strain * S)}
-        self.fresh = {}
-        for m in (1, 2):
-            for name in FIELDSEQ + ["ub", "u"]:
-                v = call(lambda: np.array(getattr(rt.grain.grain(self.ubi[m].copy()), name), float))
-                if isinstance(v, Exception):
-                    raise BenchError("grain(ubi).%s raised %r" % (name, v), c1)
-                self.fresh[m, name] = v
-        for name in ("UB", "mt", "rmt", "unitcell", "B"):
-            if close(self.fresh[1, name], self.fresh[2, name]):
-                raise common.MachineryError("near bench: the strained matrix does not change %s beyond the tolerance" % name)
+        self.ubi = {1: u1, 2: near_matrix(u1, kind, size)}
+        self.R = {1: numpy_ref(self.ubi[1]), 2: numpy_ref(self.ubi[2])}
+        self.same = tuple(f for f in FIELDSEQ if close_field(f, self.R[1][f], self.R[2][f]))
+        if set(self.same) & {"UB", "mt", "rmt", "unitcell", "B"}:
+            raise common.MachineryError("near bench %s: the second matrix does not change %s beyond the tolerance" % (
+                self.name, self.same))
+        self.finish_init()
+
+
+def make_bench(rt, spec, c1, c2):
+    """bench of a saved replay"""
+    if spec and spec.get("near"):
+        return NearBench(rt, c1, spec["near"][0], float(spec["near"][1]))
+    if spec:
+        return CacheBench(rt, c1, c2, spec.get("cls", "?"), spec.get("same", ()))
+    return CacheBench(rt, c1, c2)
 
 
 # ------------------------------------------------------------------------------------------------------
@@ -528,6 +651,243 @@ class MapBench(object):
 
 
 # ------------------------------------------------------------------------------------------------------
+# call part
+
+def recon_view(m):
+    """the view TensorMap.from_ubis / recon_order_to_map_order makes: m is a (1, ny, nx, ...) map; returns (R, V) with R
+    the contiguous reconstruction-order array (nx, ny, ...), R[i, ny-1-j] = m[0, j, i] (tensor_map.py:1212-1248), and
+    V the flipped, axis-swapped (non-contiguous, negative stride) view of R that has the layout of m"""
+    ny, nx = m.shape[1:3]
+    R = np.empty((nx, ny) + m.shape[3:], float)
+    for j in range(ny):
+        for i in range(nx):
+            R[i, ny - 1 - j] = m[0, j, i]
+    V = np.swapaxes(np.expand_dims(np.flip(R, 1), 0), 1, 2)
+    return R, V
+
+
+class CallBench(object):
+    """one call of one kernel in the way the specification's call record says"""
+    FN = {"inv": "fast_invert", "mt": "ubi_to_mt", "cell": "mt_to_unitcell", "b": "unitcell_to_b",
+          "u": "ubi_and_b_to_u", "rmt": "fast_invert"}
+    FIELD = {"inv": "UB", "mt": "mt", "cell": "cell", "b": "B", "u": "U", "rmt": "rmt"}
+    CORE_OUT = {"inv": (3, 3), "mt": (3, 3), "cell": (6,), "b": (3, 3), "u": (3, 3), "rmt": (3, 3)}
+    PRIOR = {"dirty": 7.25, "nan": np.nan, "none": 7.25}
+
+    def __init__(self, rt, voxcases):
+        self.tm = rt.tm
+        self.vox = voxcases
+        self.Es = [expected(c) for c in voxcases]
+        ubi0 = np.array([E["ubi"] for E in self.Es], float)
+        self.problems = []
+        # reference chain, computed into buffers that held 7.25 and NaN: both bit-identical, and judged against the
+        # exact values, so that nothing in the reference is an accident of what the memory held
+        self.inp, self.ref = {}, {}
+        self.inp["inv"] = self.inp["mt"] = (ubi0,)
+        for k in ("inv", "mt", "cell", "rmt", "b", "u"):
+            if k == "cell":
+                self.inp[k] = (self.ref["mt"],)
+            elif k == "rmt":
+                self.inp[k] = (self.ref["mt"],)
+            elif k == "b":
+                self.inp[k] = (self.ref["cell"],)
+            elif k == "u":
+                self.inp[k] = (ubi0, self.ref["b"])
+            outs = []
+            for fill in (7.25, np.nan):
+                buf = np.full((6,) + self.CORE_OUT[k], fill)
+                r = call(lambda: getattr(self.tm, self.FN[k])(*(self.args(k, self.inp[k]) + [buf])))
+                if isinstance(r, Exception):
+                    raise BenchError("tensor_map.%s raised %r with an explicit result array" % (self.FN[k], r), voxcases[0])
+                outs.append(np.array(r, float))
+            self.ref[k] = outs[0]
+            if outs[0].tobytes() != outs[1].tobytes():
+                self.problems.append("tensor_map.%s: the result depends on what the result array held before the call: "
+                                     "%s (7.25) vs %s (NaN)" % (self.FN[k], outs[0][0].tolist(), outs[1][0].tolist()))
+            for v in range(6):
+                for law, msg in judge_field(self.FIELD[k], outs[0][v], self.Es[v]):
+                    self.problems.append("tensor_map.%s into a result array that held 7.25: %s" % (self.FN[k], msg))
+                    break
+
+    @staticmethod
+    def args(k, inputs):
+        a = list(inputs)
+        if k == "cell":
+            a.append(np.arange(6))
+        elif k == "b":
+            a.append(np.eye(3))
+        return a
+
+    def layout(self, lay, arr, bv, fill=None):
+        """(array laid out as the record says, backing store) ; arr = (6,)+core values, or None for a result buffer
+        filled with `fill`"""
+        core = arr.shape[1:]
+        if lay == "flat":
+            a = arr.copy()
+            return a, a
+        if lay == "grid":
+            a = arr.reshape((1, 2, 3) + core).copy()
+            return a, a
+        if lay == "sliced":
+            big = np.full((12,) + core, 3.5 if fill is None else fill)
+            off = 0 if fill is None else 1            # inputs in the even slots, results into the odd ones
+            big[off::2] = arr
+            return big[off::2], big
+        if lay == "recon":
+            R, V = recon_view(arr.reshape((1, 2, 3) + core))
+            return V, R
+        if lay == "bare":
+            a = arr[bv].copy()
+            return a, a
+        raise common.MachineryError("layout %r" % lay)
+
+    def judge(self, rec, perturb=None):
+        k, how, lay = rec["k"], rec["how"], rec["lay"]
+        fn = getattr(self.tm, self.FN[k])
+        fname = "tensor_map.%s" % self.FN[k]
+        tag = "%s [%s, %s%s]" % (fname, lay, {"alloc": "allocating", "pos": "result array positional", "out": "out="}[how],
+                                 "" if how == "alloc" else ", held %s" % ("NaN" if rec["prior"] == "nan" else "7.25"))
+        fill = self.PRIOR[rec["prior"]]
+        co = self.CORE_OUT[k]
+        if lay == "empty":
+            probs = []
+            for lead in ((0,), (1, 0, 4)):
+                ins = [np.zeros(lead + x.shape[1:]) for x in self.inp[k]]
+                a = self.args(k, ins)
+                buf = np.full(lead + co, fill)
+                r = call(lambda: fn(*a) if how == "alloc" else (fn(*(a + [buf])) if how == "pos" else fn(*a, out=buf)))
+                if isinstance(r, Exception):
+                    probs.append("%s: raised %r on a map of shape %s" % (tag, r, lead))
+                elif np.shape(r) != lead + co:
+                    probs.append("%s: result of shape %s for a map of shape %s" % (tag, np.shape(r), lead))
+            return probs
+        bv = int(rec["bv"]) - 1
+        masks = [np.array(rec["mu"], bool), np.array(rec["mb"], bool)]
+        ins = []
+        for j, x in enumerate(self.inp[k]):
+            x = x.copy()
+            x[masks[j]] = np.nan
+            ins.append(self.layout(lay, x, bv)[0])
+        a = self.args(k, ins)
+        view = store = None
+        if how != "alloc":
+            view, store = self.layout(lay, np.full((6,) + co, fill), bv, fill)
+        r = call(lambda: fn(*a) if how == "alloc" else (fn(*(a + [view])) if how == "pos" else fn(*a, out=view)))
+        if isinstance(r, Exception):
+            return ["%s: raised %r" % (tag, r)]
+        lead = {"flat": (6,), "grid": (1, 2, 3), "sliced": (6,), "recon": (1, 2, 3), "bare": ()}[lay]
+        if np.shape(r) != lead + co:
+            return ["%s: result of shape %s, expected %s" % (tag, np.shape(r), lead + co)]
+        if how != "alloc" and not (r is view or np.shares_memory(r, store)):
+            return ["%s: the result is not the array that was passed" % tag]
+        nan = list(rec["nan"])
+        if perturb == "mask":
+            i = rec["vox"].index(1)
+            nan[i] = 1 - nan[i]
+        probs = []
+        got = np.asarray(r, float).reshape((-1,) + co) if lay != "bare" else np.asarray(r, float)[None]
+        voxels = [bv] if lay == "bare" else list(range(6))
+        if [i for i in range(6) if rec["vox"][i]] != voxels:
+            raise common.MachineryError("call record voxels %s, harness %s" % (rec["vox"], voxels))
+        for i, v in enumerate(voxels):
+            if nan[v]:
+                if not np.all(np.isnan(got[i])):
+                    probs.append("%s: voxel %d has NaN input but the result is %s" % (tag, v, got[i].tolist()))
+            elif got[i].tobytes() != self.ref[k][v].tobytes():
+                probs.append("%s: voxel %d is %s, the reference call gives %s (NaN voxels %s)" % (
+                    tag, v, got[i].tolist(), self.ref[k][v].tolist(), [j for j in range(6) if nan[j]]))
+        if how != "alloc" and lay == "sliced":
+            rest = store[0::2]
+            if not (np.all(np.isnan(rest)) if rec["prior"] == "nan" else np.all(rest == fill)):
+                probs.append("%s: slots of the result array outside the view were written" % tag)
+        return probs
+
+
+# ------------------------------------------------------------------------------------------------------
+# TensorMap part
+
+class TmapBench(object):
+    """two differently masked 2x3 maps and the behaviours of the TensorMap cache model"""
+    FIELDS = ["UB", "mt", "unitcell", "B", "U"]
+    KERN = {"UB": "fast_invert", "mt": "ubi_to_mt", "unitcell": "mt_to_unitcell", "B": "unitcell_to_b", "U": "ubi_and_b_to_u"}
+    MASK = {1: [0, 1, 0, 0, 1, 0], 2: [0, 0, 0, 0, 0, 1]}
+
+    def __init__(self, rt, mb):
+        self.tm = rt.tm
+        self.vox = mb.vox
+        order = {1: list(range(6)), 2: [5, 4, 3, 2, 1, 0]}      # the second map holds the lattices in reverse order
+        self.map, self.ref = {}, {}
+        for m in (1, 2):
+            u = mb.ubi0[order[m]].copy()
+            self.ref[m] = mb.chain(u, None, (6,))
+            for k, v in self.ref[m].items():
+                if isinstance(v, Exception):
+                    raise BenchError("tensor_map.%s raised %r on an unmasked map" % (k, v), mb.vox[0])
+            u[np.array(self.MASK[m], bool)] = np.nan
+            self.map[m] = u.reshape(1, 2, 3, 3, 3)
+        self.observations = {}
+
+    def empty(self):
+        """a TensorMap without voxels: every derived map has the map's leading shape"""
+        probs = []
+        for lead in ((1, 0, 3), (1, 2, 0), (0, 2, 3)):
+            T = call(lambda: self.tm.TensorMap(maps={"UBI": np.zeros(lead + (3, 3))}))
+            for f in self.FIELDS:
+                v = T if isinstance(T, Exception) else call(getattr, T, f)
+                want = lead + ((6,) if f == "unitcell" else (3, 3))
+                if isinstance(v, Exception):
+                    probs.append("TensorMap.%s raised %r on a map of shape %s" % (f, v, lead))
+                elif np.shape(v) != want:
+                    probs.append("TensorMap.%s has shape %s on a map of shape %s" % (f, np.shape(v), lead))
+        return probs
+
+    def replay(self, ops, occ_model=None, perturb=None):
+        """(problems, drift)"""
+        if ops and ops[0][0] == "empty":
+            return self.empty(), None
+        tm = self.tm
+        T, cur, probs, drift = None, 1, [], None
+        for k, op in enumerate(ops):
+            if op[0] == "new":
+                try:
+                    if op[1] == "maps":
+                        T = tm.TensorMap(maps={"UBI": self.map[1].copy()})
+                    else:
+                        T = tm.TensorMap.from_ubis(recon_view(self.map[1])[0])
+                        if np.shape(T.UBI) != (1, 2, 3, 3, 3) or not np.array_equal(T.UBI, self.map[1], equal_nan=True):
+                            # the voxel order of from_ubis is not this property's business
+                            self.observations["from_ubis voxel order differs from tensor_map.py:1212-1248"] = 1
+                            return [], None
+                except Exception as ex:        # noqa
+                    return ["TensorMap step %d %s raised %r" % (k + 1, op[1], ex)], None
+                continue
+            if op[0] == "set":
+                cur = int(op[1])
+                arr = self.map[cur].copy()
+                try:
+                    if op[2] == "setter":
+                        T.UBI = arr
+                    elif op[2] == "item":
+                        T["UBI"] = arr
+                    else:
+                        T.add_map("UBI", arr)
+                except Exception as ex:        # noqa
+                    probs.append("TensorMap step %d: assigning UBI (%s) raised %r" % (k + 1, op[2], ex))
+                    break
+                continue
+            f = op[1]
+            v = call(getattr, T, f)
+            m = (3 - cur) if perturb == "stale" else cur
+            bad = MapBench.nanjudge("TensorMap.%s" % f, v, self.ref[m][self.KERN[f]], self.MASK[m], (1, 2, 3))
+            probs += ["step %d after %s: %s" % (k + 1, "; ".join(" ".join(str(x) for x in o) for o in ops[:k]), b) for b in bad[:1]]
+        if occ_model is not None and T is not None:
+            occ = [1 if f in T.maps else 0 for f in self.FIELDS]
+            if occ != list(occ_model):
+                drift = (occ, list(occ_model))
+        return probs, drift
+
+
+# ------------------------------------------------------------------------------------------------------
 
 def parse_lines(res, what):
     out, bad = [], 0
@@ -542,7 +902,34 @@ def parse_lines(res, what):
 
 
 def case_key(c):
-    return json.dumps([c["tri"], c["An"], c["Ad"], c["Un"], c["Ud"]])
+    return json.dumps([c["tri"], c["An"], c["Ad"], c["Un"], c["Ud"]] + ([c["scale"]] if c.get("scale") else []))
+
+
+class TLCPool(object):
+    """the TLC runs of this check do not depend on one another: start them together, collect in order"""
+
+    def __init__(self):
+        common.scratch()
+        self.jobs = {}
+
+    def start(self, name, cfgname, **kw):
+        box = {}
+
+        def work():
+            try:
+                box["res"] = common.run_tlc("Lattice", os.path.join(common.SPECS, cfgname), **kw)
+            except BaseException as ex:      # noqa
+                box["err"] = ex
+        t = threading.Thread(target=work)
+        t.start()
+        self.jobs[name] = (t, box)
+
+    def get(self, name):
+        t, box = self.jobs[name]
+        t.join()
+        if "err" in box:
+            raise common.MachineryError("TLC run %s: %r" % (name, box["err"]))
+        return box["res"]
 
 
 def pick_bench_cases(cases):
@@ -575,9 +962,8 @@ class Collector(object):
             chk.violation("%s [%d of %d %s]" % (msg, n, total_of[replay["kind"]], replay["kind"] + " cases"), replay)
 
 
-def run_alg(chk, rt, tier, col):
-    cfg = os.path.join(common.SPECS, "Lattice_alg_q.cfg" if tier == "quick" else "Lattice_alg_t.cfg")
-    res = common.run_tlc("Lattice", cfg, workers=16, timeout=1500, coverage=True)
+def run_alg(chk, rt, tier, col, pool):
+    res = pool.get("alg")
     chk.add_tlc("Lattice alg " + tier, res, require_cover=("PickCell", "PickGen", "PickRot"))
     if res.violated:
         raise common.MachineryError("Lattice algebra violates %s\n%s" % (res.violated, res.stdout[-1500:]))
@@ -610,61 +996,79 @@ def ubitob_explained(c, rt):
     return bool(max(abs(b[1, 0]), abs(b[2, 0]), abs(b[2, 1])) <= 1e-12 and min(np.diag(b)) > 0 and close(b @ b.T, E["rmt"]))
 
 
+STRAINED_CUBIC = json.dumps([[16, 1, 0], [0, 16, -1], [0, 0, 17]])
+
+
 def replay_alg(chk, rt, cases, col):
     t0 = time.time()
-    for c in cases:
-        exact_laws(c)
-    vec = vector_routes(rt, [expected(c)["ubi"] for c in cases])
-    classes, nrod, nfits = {}, 0, 0
-    for i, c in enumerate(cases):
-        probs = judge_alg(c, rt, vec, i)
-        lc = lattice_class(c)
-        classes[lc] = classes.get(lc, 0) + 1
-        nrod += c["rodd"] == 0
-        nfits += c["fits"] == [1, 1]
-        nontriv = lc != "cubic" or c["Ud"] > 1
-        chk.case(case_key(c), nontrivial=nontriv)
-        chk.traces += 1
-        if i in (5, len(cases) // 2):
-            chk.sample(c)
-        f3 = None
-        for route, field, law, msg in probs:
-            if route == "indexing.ubitoB" and field == "B" and chk.finding(F3_ID):
-                first = f3 is None
-                f3 = ubitob_explained(c, rt) if first else f3
-                if f3 and not first:
-                    continue
-                if f3:
-                    chk.known_finding(F3_ID, "indexing.ubitoB returns the factor with B B^T = rmt instead of the "
-                                             "Busing-Levy B (B^T B = rmt) for non-orthogonal cells")
-                    continue
-            col.add(("alg", route, field, law), msg, dict(c, kind="alg"))
+    classes, nrod, nfits, nstrained = {}, 0, 0, 0
+    nscale = {}
+    fams = [(None, cases)] + [(sc, [scaled_case(c, *sc) for c in cases]) for sc in SCALES]
+    for sc, fam in fams:
+        for c in fam:
+            exact_laws(c)
+        vec = vector_routes(rt, [expected(c)["ubi"] for c in fam])
+        for i, c in enumerate(fam):
+            probs = judge_alg(c, rt, vec, i)
+            lc = lattice_class(c)
+            if sc is None:
+                classes[lc] = classes.get(lc, 0) + 1
+                nrod += c["rodd"] == 0
+                nfits += c["fits"] == [1, 1]
+                nstrained += bool(c["tri"]) and json.dumps(c["Bn"]) == STRAINED_CUBIC
+            else:
+                nscale["%d/%d" % sc] = nscale.get("%d/%d" % sc, 0) + 1
+            nontriv = lc != "cubic" or c["Ud"] > 1
+            chk.case(case_key(c), nontrivial=nontriv)
+            chk.traces += 1
+            if sc is None and i in (5, len(cases) // 2):
+                chk.sample(c)
+            f3 = None
+            for route, field, law, msg in probs:
+                if route == "indexing.ubitoB" and field == "B" and chk.finding(F3_ID):
+                    first = f3 is None
+                    f3 = ubitob_explained(c, rt) if first else f3
+                    if f3 and not first:
+                        continue
+                    if f3:
+                        chk.known_finding(F3_ID, "indexing.ubitoB returns the factor with B B^T = rmt instead of the "
+                                                 "Busing-Levy B (B^T B = rmt) for non-orthogonal cells")
+                        continue
+                if sc is not None:
+                    msg = "[cell scaled by %d/%d] %s" % (sc[0], sc[1], msg)
+                col.add(("alg", route, field, law, sc), msg, dict(c, kind="alg"))
     chk.notes["alg_lattice_classes"] = classes
+    chk.notes["alg_strained_cubic_cases"] = int(nstrained)
+    chk.notes["alg_scaled_cases"] = nscale
     chk.notes["alg_rotations_by_180_degrees"] = int(nrod)
     chk.notes["alg_whole_chain_laws_in_TLC"] = int(nfits)
     chk.notes["alg_replay_s"] = round(time.time() - t0, 1)
-    need = {"cubic", "orthorhombic", "monoclinic", "triclinic", "hexagonal"}
-    if not need <= set(classes) or nrod == 0 or nfits == 0 or nfits == len(cases) and len(cases) > 2000:
-        raise common.MachineryError("vacuity: lattice classes %s, 180-degree rotations %d, in-TLC laws %d" % (classes, nrod, nfits))
+    need = {"cubic", "tetragonal", "orthorhombic", "monoclinic", "triclinic", "hexagonal"}
+    if not need <= set(classes) or nrod == 0 or nfits == 0 or nstrained == 0 or nfits == len(cases) and len(cases) > 2000 \
+            or any(nscale.get("%d/%d" % sc, 0) != len(cases) for sc in SCALES):
+        raise common.MachineryError("vacuity: lattice classes %s, strained cubic %d, 180-degree rotations %d, in-TLC laws %d, "
+                                    "scaled %s" % (classes, nstrained, nrod, nfits, nscale))
+    return len(cases) * len(fams)
 
 
-def run_cache(chk, rt, tier, bench, col):
+def run_cache(chk, rt, tier, bench, extra, col, pool):
+    """bench = the pair in which everything differs (every behaviour); extra = the other classes of pairs: every
+    behaviour of the transition run, and the full enumeration shared out among them in turn (the first of them, the
+    5e-6 strain, sees every behaviour)"""
     t0 = time.time()
-    near = NearBench(rt, bench.cases[1])
     drift = 0
     nb = 0
-    runs = [("Lattice_cache_tr.cfg", "transitions depth 8"),
-            ("Lattice_cache_q.cfg" if tier == "quick" else "Lattice_cache_t.cfg",
-             "all behaviours depth %d" % (4 if tier == "quick" else 5))]
+    runs = [("cache_tr", "transitions depth 8"),
+            ("cache_all", "all behaviours depth %d" % (4 if tier == "quick" else 5))]
     seen = set()
-    for cfgname, what in runs:
-        # the transition run picks one representative path per state: one worker keeps the choice deterministic
-        res = common.run_tlc("Lattice", os.path.join(common.SPECS, cfgname), workers=(1 if "_tr" in cfgname else 16),
-                             timeout=1500, coverage=True)
-        chk.add_tlc("Lattice cache " + what, res, require_cover=("SetUbi", "Read"))
+    per = dict((b.name, 0) for b in extra)
+    nedit = 0
+    for job, what in runs:
+        res = pool.get(job)
+        chk.add_tlc("Lattice cache " + what, res, require_cover=("SetUbi", "Read", "EditArg"))
         if res.violated:
             raise common.MachineryError("pinned-code cache model violates %s" % res.violated)
-        for h in parse_lines(res, cfgname):
+        for h in parse_lines(res, job):
             ops = [list(o) for o in h["ops"]]
             key = json.dumps(ops)
             if key in seen:
@@ -673,31 +1077,42 @@ def run_cache(chk, rt, tier, bench, col):
             if h["fresh"] != 1:
                 raise common.MachineryError("pinned-code cache model returns stale data: %s" % key)
             probs, d = bench.replay(ops, h["occ"], fresh_each=(nb % 97 == 0))
-            if near is not None and any(o[0] == "set" for o in ops):
-                probs = probs + ["[second matrix = first under a 5e-6 strain] " + x for x in near.replay(ops)[0]]
+            found = [(bench, p) for p in probs]
+            if any(o[0] == "set" for o in ops):
+                use = extra if job == "cache_tr" else ([extra[0]] + ([extra[1 + nb % (len(extra) - 1)]] if len(extra) > 1 else []))
+                for b in use:
+                    per[b.name] += 1
+                    found += [(b, "[second matrix: %s] %s" % (b.name, x)) for x in b.replay(ops)[0]]
             nb += 1
             drift += d is not None
             sets = [i for i, o in enumerate(ops) if o[0] == "set"]
             reads = [i for i, o in enumerate(ops) if o[0] == "read"]
-            chk.case(key, nontrivial=bool(sets and reads and min(reads) < max(sets) < max(reads)))
+            edits = [i for i, o in enumerate(ops) if o[0] == "edit"]
+            nedit += bool(edits and reads and min(edits) < max(reads))
+            chk.case(key, nontrivial=bool(sets and reads and min(reads) < max(sets) < max(reads)) or
+                     bool(edits and reads and min(edits) < max(reads)))
             chk.traces += 1
             if nb in (50, 5000):
                 chk.sample({"ops": ops, "occupancy": h["occ"]})
-            for p in probs:
-                col.add(("cache", (re.findall(r"grain\.\w+|read \w+", p) or ["?"])[0]), p,
-                        {"kind": "cache", "ops": ops, "occ": h["occ"], "ubi1": bench.cases[1], "ubi2": bench.cases[2]})
+            for b, p in found:
+                col.add(("cache", b.name, (re.findall(r"grain\.\w+|read \w+", p) or ["?"])[0]), p,
+                        {"kind": "cache", "ops": ops, "occ": h["occ"], "ubi1": b.cases[1], "ubi2": b.cases[2], "bench": b.spec})
     chk.notes["cache_behaviours"] = nb
+    chk.notes["cache_behaviours_with_a_read_after_the_caller_edited_its_array"] = nedit
+    chk.notes["cache_behaviours_per_class_of_second_matrix"] = per
     chk.notes["cache_occupancy_differs_from_model"] = drift     # model shape only, not part of the property
+    if nedit == 0 or any(v == 0 for v in per.values()):
+        raise common.MachineryError("vacuity: cache edits %d, classes %s" % (nedit, per))
     if tier == "thorough":
         r6 = common.run_tlc("Lattice", os.path.join(common.SPECS, "Lattice_cache_d6.cfg"), workers=16, timeout=3000)
         chk.add_tlc("Lattice cache depth 6 (invariants)", r6)
         if r6.violated:
             raise common.MachineryError("pinned-code cache model violates %s at depth 6" % r6.violated)
         # the defect classes the model is sensitive to: TLC must find them, the real code must not show them
-        for cfgname in ("Lattice_cache_forget.cfg", "Lattice_cache_nocopy.cfg"):
+        for cfgname in ("Lattice_cache_forget.cfg", "Lattice_cache_nocopy.cfg", "Lattice_cache_alias.cfg"):
             rb = common.run_tlc("Lattice", os.path.join(common.SPECS, cfgname), workers=1, timeout=900)
             chk.add_tlc("Lattice " + cfgname[8:-4] + " (defect configuration, violation expected)", rb)
-            if "Coherent" not in rb.violated and "ReadFresh" not in rb.violated:
+            if not set(rb.violated) & {"Coherent", "ReadFresh", "UbiOwn"}:
                 raise common.MachineryError("%s: TLC did not find the modelled defect" % cfgname)
             ops = [list(o) for o in common.parse_tla(rb.trace[-1]["vars"]["hist"])]
             ops += [["read", f] for f in FIELDSEQ]
@@ -707,14 +1122,120 @@ def run_cache(chk, rt, tier, bench, col):
             chk.notes["counterexample_" + cfgname[14:-4]] = {"ops": ops, "real_code_shows_it": bool(probs)}
             for p in probs:
                 col.add(("cache", "counterexample " + cfgname), p,
-                        {"kind": "cache", "ops": ops, "occ": None, "ubi1": bench.cases[1], "ubi2": bench.cases[2]})
+                        {"kind": "cache", "ops": ops, "occ": None, "ubi1": bench.cases[1], "ubi2": bench.cases[2],
+                         "bench": bench.spec})
     chk.notes["cache_replay_s"] = round(time.time() - t0, 1)
     return nb
 
 
-def run_map(chk, rt, tier, mb, col):
+def run_tmap(chk, rt, tier, tb, col, pool):
     t0 = time.time()
-    res = common.run_tlc("Lattice", os.path.join(common.SPECS, "Lattice_map.cfg"), workers=16, timeout=900, coverage=True)
+    nb, drift, nhist = 0, 0, {"partial": 0, "none": 0, "twice": 0, "from_ubis": 0}
+    seen = set()
+    for job, what in (("tmap_tr", "transitions depth 8"), ("tmap_all", "all behaviours depth %d" % (4 if tier == "quick" else 5))):
+        res = pool.get(job)
+        chk.add_tlc("Lattice TensorMap " + what, res, require_cover=("New", "SetUbi", "Read"))
+        if res.violated:
+            raise common.MachineryError("pinned-code TensorMap model violates %s" % res.violated)
+        for h in parse_lines(res, job):
+            ops = [list(o) for o in h["ops"]]
+            key = json.dumps(ops)
+            if key in seen or not ops:
+                continue
+            seen.add(key)
+            if h["fresh"] != 1:
+                raise common.MachineryError("pinned-code TensorMap model returns stale data: %s" % key)
+            probs, d = tb.replay(ops, h["occ"])
+            nb += 1
+            drift += d is not None
+            sets = [i for i, o in enumerate(ops) if o[0] == "set"]
+            reads = [i for i, o in enumerate(ops) if o[0] == "read"]
+            after = bool(sets and reads and max(reads) > min(sets))
+            if after:
+                before = set(ops[i][1] for i in reads if i < min(sets))
+                nhist["none"] += not before
+                nhist["partial"] += bool(before) and len(before) < 5
+                nhist["twice"] += any(j == i + 1 for i, j in zip(sets, sets[1:]))
+                nhist["from_ubis"] += ops[0][1] == "from_ubis"
+            chk.case(("tmap", key), nontrivial=bool(sets and reads and min(reads) < max(sets) < max(reads)))
+            chk.traces += 1
+            if nb == 700:
+                chk.sample({"tensormap_ops": ops, "maps_present": h["occ"]})
+            for p in probs:
+                col.add(("tmap", (re.findall(r"TensorMap\.\w+|raised", p) or ["?"])[0]), p, {"kind": "tmap", "ops": ops, "vox": tb.vox})
+    for p in tb.empty():
+        col.add(("tmap", "empty", p.split(" ")[0]), p, {"kind": "tmap", "ops": [["empty", 0]], "vox": tb.vox})
+    chk.case(("tmap", "empty"))
+    chk.traces += 1
+    chk.notes["tmap_maps_without_voxels"] = 3
+    if tier == "thorough":
+        rb = common.run_tlc("Lattice", os.path.join(common.SPECS, "Lattice_tmap_forget.cfg"), workers=1, timeout=900)
+        chk.add_tlc("Lattice tmap_forget (defect configuration, violation expected)", rb)
+        if "Coherent" not in rb.violated and "ReadFresh" not in rb.violated:
+            raise common.MachineryError("Lattice_tmap_forget.cfg: TLC did not find the modelled defect")
+        ops = [list(o) for o in common.parse_tla(rb.trace[-1]["vars"]["hist"])] + [["read", f] for f in tb.FIELDS]
+        probs, _ = tb.replay(ops)
+        chk.traces += 1
+        chk.case(("tmap", json.dumps(ops)))
+        chk.notes["counterexample_tmap_forget"] = {"ops": ops, "real_code_shows_it": bool(probs)}
+        for p in probs:
+            col.add(("tmap", "counterexample"), p, {"kind": "tmap", "ops": ops, "vox": tb.vox})
+    chk.notes["tmap_behaviours"] = nb
+    chk.notes["tmap_reads_after_a_new_UBI_map"] = {"some_maps_computed_before": nhist["partial"], "nothing_computed_before": nhist["none"],
+                                                   "assigned_twice_in_a_row": nhist["twice"], "built_by_from_ubis": nhist["from_ubis"]}
+    chk.notes["tmap_maps_present_differ_from_model"] = drift    # model shape only
+    if tb.observations:
+        chk.notes.setdefault("observations", {}).update(tb.observations)
+    if min(nhist.values()) == 0:
+        raise common.MachineryError("vacuity: TensorMap histories %s" % nhist)
+    chk.notes["tmap_replay_s"] = round(time.time() - t0, 1)
+    return nb
+
+
+def run_call(chk, rt, tier, cb, col, pool):
+    t0 = time.time()
+    res = pool.get("call")
+    chk.add_tlc("Lattice kernel calls", res, require_cover=("CallPick",))
+    if res.violated:
+        raise common.MachineryError("call model violates %s" % res.violated)
+    recs = parse_lines(res, "call")
+    if len(recs) != 10690:
+        raise common.MachineryError("expected 10690 call records, got %d" % len(recs))
+    for p in cb.problems:
+        col.add(("call", "reference", p.split(":")[0]), p, {"kind": "call", "rec": None, "vox": cb.vox})
+    fam = {}
+    for k, rec in enumerate(sorted(recs, key=lambda r: json.dumps(r, sort_keys=True))):
+        probs = cb.judge(rec)
+        fk = "%s/%s" % (rec["lay"], rec["how"] if rec["how"] == "alloc" else rec["how"] + "+" + rec["prior"])
+        fam[fk] = fam.get(fk, 0) + 1
+        chk.case(("call", json.dumps(rec, sort_keys=True)), nontrivial=rec["how"] != "alloc" or rec["lay"] not in ("flat", "grid"))
+        chk.traces += 1
+        if k == 4321:
+            chk.sample(rec)
+        for p in probs:
+            col.add(("call", rec["k"], rec["lay"], rec["how"]), p, {"kind": "call", "rec": rec, "vox": cb.vox})
+    chk.notes["call_families"] = fam
+    if len(fam) != 30 or min(fam.values()) == 0:
+        raise common.MachineryError("vacuity: call families %s" % fam)
+    if tier == "thorough":
+        rb = common.run_tlc("Lattice", os.path.join(common.SPECS, "Lattice_call_unwritten.cfg"), workers=1, timeout=900)
+        chk.add_tlc("Lattice call_unwritten (defect configuration, violation expected)", rb)
+        if "CallDefined" not in rb.violated:
+            raise common.MachineryError("Lattice_call_unwritten.cfg: TLC did not find the modelled defect")
+        c = common.parse_tla(rb.trace[-1]["vars"]["cs"])
+        rec = {"k": c["k"], "how": c["how"], "prior": c["prior"], "lay": c["lay"], "bv": c["bv"], "mu": [0] * 6, "mb": [0] * 6,
+               "vox": [1] * 6, "nan": [0] * 6}
+        probs = cb.judge(rec)
+        chk.notes["counterexample_call_unwritten"] = {"call": rec, "real_code_shows_it": bool(probs)}
+        for p in probs:
+            col.add(("call", "counterexample"), p, {"kind": "call", "rec": rec, "vox": cb.vox})
+    chk.notes["call_replay_s"] = round(time.time() - t0, 1)
+    return len(recs)
+
+
+def run_map(chk, rt, tier, mb, col, pool):
+    t0 = time.time()
+    res = pool.get("map")
     chk.add_tlc("Lattice map masks", res, require_cover=("MapVoxel",))
     if res.violated:
         raise common.MachineryError("map model violates %s" % res.violated)
@@ -733,55 +1254,99 @@ def run_map(chk, rt, tier, mb, col):
     return recs
 
 
+def pick_pairs(cases, c1):
+    """partners of c1 for the classes of pairs: (same lattice, other rotation), (same rotation, other lattice)"""
+    lk = lambda c: json.dumps([c["tri"], c["An"], c["Ad"]])
+    ok = [c for c in sorted(cases, key=case_key) if c["Ud"] > 1 and c["rodd"] != 0]
+    rot = [c for c in ok if lk(c) == lk(c1) and c["Un"] != c1["Un"] and c["rot"][2] != c1["rot"][2] and c["rot"][0] != c1["rot"][0]]
+    lat = [c for c in ok if lk(c) != lk(c1) and c["rot"] == c1["rot"] and c["tri"] and lattice_class(c) in ("triclinic", "monoclinic")]
+    if not rot or not lat:
+        raise common.MachineryError("no partner cases for the cache bench classes: %d rotated, %d other cell" % (len(rot), len(lat)))
+    return rot[len(rot) // 2], lat[-1]
+
+
 def run(tier, replay=None):
     chk = common.Check(PROP, tier)
     shadow = common.build_shadow("normal")
     common.use_shadow(shadow)
     rt = Routes()
     rt.start_numba()
-    chk.rule = ("alg: TLC enumerates lattice x rotation (upper-triangular rational B cubic..triclinic incl. strained, "
-                "general rational bases incl. hexagonal/rhombohedral; U = Rz Ry Rx over right and Pythagorean angles, at "
-                "most two Pythagorean); distinct = distinct (lattice, U); non-trivial = not (cubic and unrotated). "
-                "cache: every behaviour of set_ubi(2 matrices)/read(9 names) to the depth bound + every transition of the "
-                "reduced state graph; non-trivial = a read, then a set_ubi, then a read. map: all 4096 pairs of NaN masks "
-                "of a 2x3 map (UBI mask, B mask); non-trivial = some voxel masked")
+    chk.rule = ("alg: TLC enumerates lattice x rotation (upper-triangular rational B cubic..triclinic incl. tetragonal and "
+                "strained cubic, general rational bases incl. hexagonal/rhombohedral; U = Rz Ry Rx over right and Pythagorean "
+                "angles, at most two Pythagorean), each case also with the cell scaled by 1/4 and by 100; distinct = distinct "
+                "(lattice, U, scale); non-trivial = not (cubic and unrotated). "
+                "cache: every behaviour of set_ubi(2 matrices)/read(9 names)/caller edits the array it handed in, to the depth "
+                "bound + every transition of the reduced state graph, the pair of matrices in 8 classes; non-trivial = a read, "
+                "then a set_ubi, then a read, or a read after an edit. tmap: every behaviour of TensorMap construction (2 ways) / "
+                "new UBI map (2 maps x 3 ways) / read (5 maps) to the depth bound + every transition. map: all 4096 pairs of NaN "
+                "masks of a 2x3 map (UBI mask, B mask); non-trivial = some voxel masked. call: all 10690 combinations of kernel x "
+                "result provision x previous buffer content x layout x NaN masks; non-trivial = not a plain allocating call")
     chk.assumptions = ["accuracy of the floating-point code away from the exactly representable instances is not decided",
                        "cell lengths/angles are finished by sqrt/acos of exact metric tensor entries in the harness; for "
                        "general (non-triangular) bases B and U are finished by Cholesky of the exact rmt",
                        "the Rodrigues vector follows xfab.tools.u_to_rod (vector of U^T); not compared at 180 degrees",
                        "grain caches are exercised through set_ubi only (direct assignment to grain.ubi is outside the property)",
-                       "NaN voxels are whole-matrix NaN"]
-    chk.notes["tolerances"] = {"relative": REL, "absolute": 1e-12, "angles_deg": ANGTOL}
+                       "NaN voxels are whole-matrix NaN",
+                       "scales, classes of matrix pairs, call shapes and buffers are harness-side instance families (the model is "
+                       "covariant in them); matrices 1e-7 away from an exact one are judged against a numpy reference at 1e-9",
+                       "TensorMap hands out its maps by reference and keeps the caller's UBI array by design: writing into "
+                       "either is outside the property; eps_* / sig_* maps belong to C10"]
+    chk.notes["tolerances"] = {"relative": REL, "absolute_dimensionless_only": ABSFLOOR, "angles_deg": ANGTOL}
     col = Collector()
     chk.exhaustive = True
     if replay:
         return run_replay(chk, rt, replay)
 
-    cases = run_alg(chk, rt, tier, col)
+    q = tier == "quick"
+    pool = TLCPool()
+    pool.start("alg", "Lattice_alg_q.cfg" if q else "Lattice_alg_t.cfg", workers=16, timeout=1500, coverage=True)
+    # the transition runs pick one representative path per state: one worker keeps the choice deterministic
+    pool.start("cache_tr", "Lattice_cache_tr.cfg", workers=1, timeout=1500, coverage=True)
+    pool.start("cache_all", "Lattice_cache_q.cfg" if q else "Lattice_cache_t.cfg", workers=16, timeout=1500, coverage=True)
+    pool.start("map", "Lattice_map.cfg", workers=16, timeout=900, coverage=True)
+    pool.start("call", "Lattice_call.cfg", workers=16, timeout=900, coverage=True)
+    pool.start("tmap_tr", "Lattice_tmap_tr.cfg", workers=1, timeout=900, coverage=True)
+    pool.start("tmap_all", "Lattice_tmap_q.cfg" if q else "Lattice_tmap_t.cfg", workers=16, timeout=900, coverage=True)
+
+    cases = run_alg(chk, rt, tier, col, pool)
     rt.wait_numba()
-    replay_alg(chk, rt, cases, col)
+    nalg = replay_alg(chk, rt, cases, col)
     bc = pick_bench_cases(cases)
     if len(bc) < 6:
         raise common.MachineryError("not enough distinct lattices for the cache/map benches: %d" % len(bc))
     tric = [c for c in bc if c["tri"] and lattice_class(c) in ("triclinic", "monoclinic")]
     if len(tric) < 2:
         raise common.MachineryError("no two oblique lattices for the cache bench")
-    nb, recs, bench, mb = 0, [], None, None
+    nb, nt, recs, crecs, bench, mb, cb, tb = 0, 0, [], 0, None, None, None, None
     try:
-        bench = CacheBench(rt, tric[0], tric[-1])
-        nb = run_cache(chk, rt, tier, bench, col)
+        c1 = tric[0]
+        bench = CacheBench(rt, c1, tric[-1])
+        crot, clat = pick_pairs(cases, c1)
+        extra = [NearBench(rt, c1, *NEARS[0]),
+                 CacheBench(rt, c1, crot, "same lattice, other orientation", CacheBench.ROTATED),
+                 CacheBench(rt, c1, clat, "same orientation, other cell", CacheBench.SAMEU)]
+        extra += [NearBench(rt, c1, kind, size) for kind, size in NEARS[1:]]
+        nb = run_cache(chk, rt, tier, bench, extra, col, pool)
     except BenchError as ex:
         col.add(("cache", "bench"), "cache part not run: %s" % ex.args[0], dict(ex.args[1], kind="alg"))
         chk.exhaustive = False
     try:
         mb = MapBench(rt, bc[:6])
-        recs = run_map(chk, rt, tier, mb, col)
+        recs = run_map(chk, rt, tier, mb, col, pool)
+        tb = TmapBench(rt, mb)
+        nt = run_tmap(chk, rt, tier, tb, col, pool)
     except BenchError as ex:
         col.add(("map", "bench"), "map part not run: %s" % ex.args[0], dict(ex.args[1], kind="alg"))
         chk.exhaustive = False
-    col.flush(chk, {"alg": len(cases), "cache": nb, "map": len(recs)})
-    if tier == "thorough" and bench is not None and mb is not None:
-        selftest(rt, cases, bench, mb, recs)
+    try:
+        cb = CallBench(rt, bc[:6])
+        crecs = run_call(chk, rt, tier, cb, col, pool)
+    except BenchError as ex:
+        col.add(("call", "bench"), "call part not run: %s" % ex.args[0], dict(ex.args[1], kind="alg"))
+        chk.exhaustive = False
+    col.flush(chk, {"alg": nalg, "cache": nb, "map": len(recs), "tmap": nt, "call": crecs})
+    if bench is not None and mb is not None and cb is not None and tb is not None:
+        selftest(rt, cases, bench, mb, recs, cb, tb)
     return chk.finish()
 
 
@@ -796,7 +1361,7 @@ def run_replay(chk, rt, path):
             chk.violation(msg, case)
     elif kind == "cache":
         try:
-            bench = CacheBench(rt, case["ubi1"], case["ubi2"])
+            bench = make_bench(rt, case.get("bench"), case["ubi1"], case["ubi2"])
             probs, _ = bench.replay(case["ops"], fresh_each=True)
         except BenchError as ex:
             probs = [ex.args[0]]
@@ -809,6 +1374,21 @@ def run_replay(chk, rt, path):
             probs = [ex.args[0]]
         for p in probs:
             chk.violation(p, case)
+    elif kind == "tmap":
+        try:
+            probs = TmapBench(rt, MapBench(rt, case["vox"])).replay(case["ops"])[0]
+        except BenchError as ex:
+            probs = [ex.args[0]]
+        for p in probs:
+            chk.violation(p, case)
+    elif kind == "call":
+        try:
+            cb = CallBench(rt, case["vox"])
+            probs = list(cb.problems) + (cb.judge(case["rec"]) if case.get("rec") else [])
+        except BenchError as ex:
+            probs = [ex.args[0]]
+        for p in probs:
+            chk.violation(p, case)
     else:
         raise common.MachineryError("unknown replay kind %r" % kind)
     chk.case(json.dumps(case, sort_keys=True))
@@ -817,24 +1397,34 @@ def run_replay(chk, rt, path):
     return chk.finish()
 
 
-def selftest(rt=None, cases=None, bench=None, mb=None, recs=None):
-    """perturbed expectations must be rejected"""
+def selftest(rt=None, cases=None, bench=None, mb=None, recs=None, cb=None, tb=None):
+    """perturbed expectations must be rejected (only where the unperturbed judgement is clean: a broken tree is
+    reported by the violations, not by the selftest)"""
     if rt is None or not cases:
         return
     c = next(x for x in cases if x["tri"] and x["Ud"] > 1 and x["rodd"] != 0 and lattice_class(x) == "triclinic")
-    base = [p for p in judge_alg(c, rt) if p[0] != "indexing.ubitoB"]
-    if not base:
-        for pert, fld in (("B", "B"), ("angle", "cell"), ("rod", "Rod"), ("UB", "UB")):
-            got = judge_alg(c, rt, perturb=pert)
-            if not [p for p in got if p[1] == fld and p[0].startswith("grain.")]:
-                raise common.MachineryError("selftest: perturbed expected %s accepted" % pert)
+    for cc in (c, scaled_case(c, 100, 1)):
+        base = [p for p in judge_alg(cc, rt) if p[0] != "indexing.ubitoB"]
+        if not base:
+            for pert, fld in (("B", "B"), ("angle", "cell"), ("rod", "Rod"), ("UB", "UB"), ("rmt", "rmt")):
+                got = judge_alg(cc, rt, perturb=pert)
+                if not [p for p in got if p[1] == fld and p[0].startswith("grain.")]:
+                    raise common.MachineryError("selftest: perturbed expected %s accepted (scale %s)" % (pert, cc.get("scale")))
     if bench is not None:
-        ops = [["read", "U"], ["set", 2], ["read", "U"]]
-        if bench.replay(ops)[0]:
-            return
-        if not bench.replay(ops, perturb="stale")[0]:
-            raise common.MachineryError("selftest: stale cache expectation accepted")
+        for ops in ([["read", "U"], ["set", 2, "set_ubi"], ["read", "U"]], [["edit", 0], ["read", "mt"]]):
+            if not bench.replay(ops)[0] and not bench.replay(ops, perturb="stale")[0]:
+                raise common.MachineryError("selftest: stale cache expectation accepted")
     if mb is not None and recs:
         r = next(x for x in recs if sum(x["mu"]) == 2 and sum(x["mb"]) == 1)
         if not mb.judge(r) and not mb.judge(r, perturb="mask"):
             raise common.MachineryError("selftest: perturbed NaN mask accepted")
+    if cb is not None and not cb.problems:
+        for lay in ("sliced", "bare"):
+            r = {"k": "b", "how": "out", "prior": "dirty", "lay": lay, "bv": 3, "mu": [0, 0, 1, 0, 0, 0], "mb": [0] * 6,
+                 "vox": [1] * 6 if lay != "bare" else [0, 0, 1, 0, 0, 0], "nan": [0, 0, 1, 0, 0, 0]}
+            if not cb.judge(r) and not cb.judge(r, perturb="mask"):
+                raise common.MachineryError("selftest: perturbed NaN mask of a kernel call accepted")
+    if tb is not None:
+        ops = [["new", "from_ubis"], ["read", "U"], ["set", 2, "item"], ["read", "U"], ["read", "mt"]]
+        if not tb.replay(ops)[0] and not tb.replay(ops, perturb="stale")[0] and not tb.observations:
+            raise common.MachineryError("selftest: stale TensorMap expectation accepted")
